@@ -570,7 +570,10 @@ class PixelAperture(Aperture):
                 aperture_sums.append(values.sum())
 
                 if error is not None:
-                    variance = (error[slc_large]**2 * aper_weights)[pixel_mask]
+                    # square as float: an integer error array would
+                    # overflow in its own dtype
+                    variance = (error[slc_large].astype(float)**2
+                                * aper_weights)[pixel_mask]
                     aperture_sum_errs.append(np.sqrt(variance.sum()))
 
         aperture_sums = np.array(aperture_sums)
